@@ -29,6 +29,8 @@ def inject(self):
             continue
         amin = max(-(-((r + 2 * D) * S) // (r * D)) for r in (r0, r1))
         for a in ACTORS:
+            if a in ("by1", "by2"):
+                continue
             b = led.get(a, p.lp)
             if b >= amin:
                 cands.append((p, a, b, amin))
